@@ -73,7 +73,7 @@ func NewClusterPackageController(
 ) *GenericPackageController {
 	return newGenericPackageController(
 		adapters.NewGenericClusterPackage, adapters.NewClusterObjectDeployment,
-		c, uncachedClient, log, scheme, imagePuller, packages.NewClusterPackageDeployer(c, scheme, imagePrefixOverrides),
+		c, uncachedClient, log, scheme, imagePuller, packages.NewClusterPackageDeployer(c, scheme, imagePrefixOverrides).WithUncachedClient(uncachedClient),
 		metricsRecorder, packageHashModifier, imagePrefixOverrides,
 	)
 }
